@@ -471,7 +471,7 @@ func runHistory(c *Ctx, genName string, idx int, hooks *historyHooks) {
 // RunC07: compaction never changes what readers see.
 func RunC07(c *Ctx) {
 	r := c.Rep
-	r.Rule = "case = one operation (Add with auto-compaction, CompactAll, AutoCompact, reopen) of a model-driven single-handle history (creates, updates, deletes, symrefs, peeled tags, log appends, log tombstones; varied table sizes so that upper ranges above a table holding deleted keys get compacted); after each op the handle's full ref+log scan must equal the reference model, a fresh handle likewise every 5 ops; distinct = (history, op); non-trivial = the op compacted a range containing a tombstone or a shadowed record"
+	r.Rule = "case = one operation (Add with auto-compaction, CompactAll, AutoCompact, reopen) of a model-driven single-handle history (creates, updates, deletes, symrefs, peeled tags, log appends, log tombstones; varied table sizes so that upper ranges above a table holding deleted keys get compacted); after each op the handle's full ref+log scan must equal the reference model, a fresh handle likewise every 5 ops; distinct = (history, op); non-trivial = the op compacted a range containing a tombstone or a shadowed record; plus engine-A executions (scheduler, M-commit on every rename onto tables.list): I/O-fault sweeps over compaction inputs, two handles compacting explicit disjoint/nested/overlapping ranges, compactions parked before each filesystem operation while another handle compacts and adds"
 	n := c.N(600, 20000)
 	for idx := 0; idx < n; idx++ {
 		if !c.Mine(idx) {
